@@ -55,6 +55,8 @@ TDoneUnary ==
                \* the transport failed after the terminator: closing the response may report it
                \/ sc.tail # "eof" /\ ~Cur.ok /\ Cur.code \in 1..16
           ELSE /\ ~Cur.ok /\ Cur.code \in 1..16
+               \* C15 (the context ended before any response message: the handler has not finished)
+               /\ (e.out = <<>> /\ e.res \in {{"ctxc"}, {"ctxd"}} => \E c \in e.res : Cur.code \in CodesOf(sc, c))
                /\ (e.out = <<>> /\ e.res = {"server_err"} => Cur.code = ServerCode)
                /\ (e.out = <<>> /\ e.res = {"limit"} => Cur.code \in {3, 8})
      ELSE \* handler: user code runs iff the first frame is a deliverable message
